@@ -35,6 +35,7 @@ type chainDesc struct {
 	utf8DN   map[int]bool // issuer name = the issuer's subject with its values as UTF8String instead of PrintableString (other DER, same text)
 	akiRoot  bool         // the root carries an authority key identifier that differs from its subject key identifier (legal, unusual)
 	sha1     map[int]bool // certificate below the root signed (validly) with a SHA-1 based algorithm, which crypto/x509 does not accept as a signature
+	extOrder map[int]string // the certificate's extensions written in another order (pki.ExtOrder); X.509 gives the order no meaning
 	badSig   map[int]bool // signature value of the certificate at this position corrupted after issuance (content untouched)
 	// structural operation applied after forging
 	structural string
@@ -51,7 +52,7 @@ type chainDesc struct {
 var caKeyCycle = []string{"p256-a", "p384-a", "rsa2048-a", "p256-b", "p384-b"}
 
 func newChainDesc(n int, leafKey string, p purposeKind) *chainDesc {
-	d := &chainDesc{n: n, wrongKey: map[int]bool{}, wrongDN: map[int]bool{}, permDN: map[int]bool{}, utf8DN: map[int]bool{}, badSig: map[int]bool{}, sha1: map[int]bool{}}
+	d := &chainDesc{n: n, wrongKey: map[int]bool{}, wrongDN: map[int]bool{}, permDN: map[int]bool{}, utf8DN: map[int]bool{}, badSig: map[int]bool{}, sha1: map[int]bool{}, extOrder: map[int]string{}}
 	for i := 0; i < n; i++ {
 		var t pki.Tmpl
 		switch {
@@ -247,6 +248,17 @@ func (d *chainDesc) forge() []*x509.Certificate {
 		}
 		t.SHA1 = d.sha1[i]
 		certs[i] = pki.Issue(t, pki.K(d.keys[i]), parent, signer)
+		if o := d.extOrder[i]; o != "" && !d.sha1[i] {
+			// same content, extensions in another order, signed by the key that signed the original
+			sk := signer
+			if sk == nil && parent != nil {
+				sk = parent.Key
+			}
+			if sk == nil {
+				sk = pki.K(d.keys[i])
+			}
+			certs[i] = pki.ReorderExtensions(certs[i], sk, pki.ExtOrder(o))
+		}
 		if d.badSig[i] {
 			der := append([]byte(nil), certs[i].DER...)
 			der[len(der)-1] ^= 0x01 // the signature value is the last element of a certificate
@@ -423,6 +435,24 @@ func chainMods(n int, p purposeKind) (viol []chainMod, benign []chainMod) {
 		}
 		v("leaf-eku{cs,ts}order", 0, func(d *chainDesc) { d.tm[0].EKUs = eku(pki.OIDEKUCodeSigning, pki.OIDEKUTimeStamping) })
 		v("leaf-eku{ts,ts}dup", 0, func(d *chainDesc) { d.tm[0].EKUs = eku(pki.OIDEKUTimeStamping, pki.OIDEKUTimeStamping) })
+	}
+	// the order of a certificate's extensions carries no meaning (RFC 5280 identifies them by OID)
+	for i := 0; i < n; i++ {
+		i := i
+		b(fmt.Sprintf("extensions-in-reverse-order@%d", i), i, func(d *chainDesc) { d.extOrder[i] = "reversed" })
+	}
+	b("leaf-eku-as-first-extension", 0, func(d *chainDesc) { d.extOrder[0] = "eku-first" })
+	b("leaf-ku-as-last-extension", 0, func(d *chainDesc) { d.extOrder[0] = "ku-last" })
+	for _, i := range []int{1, n - 1} {
+		i := i
+		if i < 1 || (i == n-1 && n-1 == 1 && i != 1) {
+			continue
+		}
+		b(fmt.Sprintf("ca-basic-constraints-as-first-extension@%d", i), i, func(d *chainDesc) { d.extOrder[i] = "bc-first" })
+		b(fmt.Sprintf("ca-basic-constraints-as-last-extension@%d", i), i, func(d *chainDesc) { d.extOrder[i] = "bc-last" })
+		if n-1 == 1 {
+			break
+		}
 	}
 	b("leaf-bc-cafalse", 0, func(d *chainDesc) { d.tm[0].BCLeafFalse = true })
 	b("leaf-extra-noncritical-ext", 0, func(d *chainDesc) {
